@@ -598,6 +598,13 @@ class BuiltinsMixin:
             if name == "get":
                 k = self.need_term(args[0])
                 dflt = args[1] if len(args) > 1 else kwargs.get("default", SV(NONE, Ty("none")))
+                if not self.pure:
+                    # exec mode: decide membership (simpler terms per path than an if-then-else value)
+                    if st.decide(H.dict_has(st, r, k), "dict.get present"):
+                        v = H.dict_get(st, r, k)
+                        self.assume_type(v, vty, fr)
+                        return SV(v, vty)
+                    return dflt
                 v = z3.If(H.dict_has(st, r, k), H.dict_get(st, r, k), self.need_term(dflt))
                 rty = None
                 if vty is not None:
